@@ -132,10 +132,29 @@ Definition chan_of_queue (s : state) (oq : option nat) : option nat :=
   end.
 
 (* one command on the model: the thread it resolved to, and the state after settling *)
-Definition exec_cmd (py : bool) (obs : list parked_t) (cap : nat) (s : state) (c : cmd) (getq : option nat) : option thread * state :=
-  match resolve py s c with
-  | None => (None, s)
+(* With convoy.pop_between instrumented, a convoy waiting in its select while a producer holds a reference
+   fails its idle check at every timer tick and loops: it polls the channel and parks at pop_between by itself,
+   at a moment the harness does not control.  When the implementation shows such a convoy at pop_between after
+   a command, its poll preceded whatever the command's thread enqueued (otherwise the poll would have found the
+   task): the replay lets the convoy wake and poll (KWake, allowed at any time in the model) BEFORE the
+   command's thread runs. *)
+Definition presettle (py : bool) (obs : list parked_t) (s : state) : state :=
+  if py then
+    fold_left (fun s q =>
+                 match nth_error (st_qs s) q with
+                 | Some Q => match q_pc Q, chan s (q_ch Q) with
+                             | CWait, [] => if obs_at7 obs q then step_conv (step_conv s q KWake) q KStep else s
+                             | _, _ => s
+                             end
+                 | None => s
+                 end) (seq 0 (length (st_qs s))) s
+  else s.
+
+Definition exec_cmd (py : bool) (obs : list parked_t) (cap : nat) (s0 : state) (c : cmd) (getq : option nat) : option thread * state :=
+  match resolve py s0 c with
+  | None => (None, s0)
   | Some (k, i) =>
+      let s := presettle py obs s0 in
       let s1 :=
         match k with
         | 0 => step_conv s i KStep
@@ -770,3 +789,44 @@ Definition icase_signature (c : icase) : nat * nat * nat :=
   (last,
    length (filter (fun o => match io_op o with IRead _ => existsb (fun t => fst (snd t) =? 0) (io_tasks o) | _ => false end) (ic_steps c)),
    length (filter (fun o => match io_op o with ITake _ => negb (Nat.eqb (length (io_puts o)) 0) | _ => false end) (ic_steps c))).
+
+(* ------------------------------------------------------------------------------------------ *)
+(* generations sharing the conn-state tracker (C13_TrGen) against the implementation            *)
+(* ------------------------------------------------------------------------------------------ *)
+From Dae Require Import C13_TrGen.
+
+Record gobs := mkGO { go_op : gop; go_reg : list (option nat); go_entries : list (nat * nat * nat) }.
+Record gcase := mkGCase { gca_bpfs : nat; gca_keys : nat; gca_steps : list gobs }.
+
+Definition g_reg_view (s : gstate) (bpfs : nat) : list (option nat) :=
+  map (fun b => match g_reg s b with Some (_, n) => Some n | None => None end) (seq 0 bpfs).
+Definition g_entry_refs (s : gstate) (b k : nat) : nat :=
+  match shared_tracker s b k with Some e => t_refs e | None => 0 end.
+Definition obs_entry_refs (l : list (nat * nat * nat)) (b k : nat) : nat :=
+  match find (fun x => (fst (fst x) =? b) && (snd (fst x) =? k)) l with Some x => snd x | None => 0 end.
+
+Record gacc := mkGA { ga_errs : list (nat * nat); ga_s : gstate; ga_n : nat }.
+
+(* codes: (n,1) impl<>model (registry references or tracker entries); (n,2) impl<>spec: some entry of a shared
+   tracker does not count the live owners of its tuple; (n,3) model<>spec *)
+Definition g_step_check (bpfs keys : nat) (a : gacc) (o : gobs) : gacc :=
+  let s' := gstep closed_core_reacquires_tracker (ga_s a) (go_op o) in
+  let n := ga_n a in
+  let cells := flat_map (fun b => map (fun k => (b, k)) (seq 0 keys)) (seq 0 bpfs) in
+  mkGA (ga_errs a
+        ++ (if list_eqb optnat_eqb (g_reg_view s' bpfs) (go_reg o)
+               && forallb (fun bk => g_entry_refs s' (fst bk) (snd bk) =? obs_entry_refs (go_entries o) (fst bk) (snd bk)) cells
+            then [] else [(n, 1)])
+        ++ (if forallb (fun bk => obs_entry_refs (go_entries o) (fst bk) (snd bk) =? owners_on s' (fst bk) (snd bk)) cells
+            then [] else [(n, 2)])
+        ++ (if forallb (fun bk => gen_refs_ok s' (fst bk) (snd bk)) cells && gen_deletes_ok s' then [] else [(n, 3)]))
+       s' (S n).
+
+Definition gcheck_case (c : gcase) : list (nat * nat) :=
+  first_of_each (ga_errs (fold_left (g_step_check (gca_bpfs c) (gca_keys c)) (gca_steps c) (mkGA [] g0 0))).
+
+(* signature: generations, closes, releases issued by a closed generation *)
+Definition gcase_signature (c : gcase) : nat * nat * nat :=
+  let ops := map go_op (gca_steps c) in
+  let sf := fold_left (gstep closed_core_reacquires_tracker) ops g0 in
+  (length (g_cores sf), length (filter gc_closed (g_cores sf)), length (g_kdel sf)).
